@@ -4,6 +4,7 @@ CONSTANTS FlawShallowListFreeze = FALSE
  FlawAppendSharesCapacity = FALSE
  FlawSortedAliasesOrdered = TRUE
  OnlyTargets = {}
+ DeepTargets = {"x", "L"}
  MaxMut = 2
  DeepVias = {"direct"}
  LastVias = {"alias"}
